@@ -1,6 +1,7 @@
 import PhyVerif.Driver.Rat
 import PhyVerif.Driver.C06
 import PhyVerif.Model.C05
+import PhyVerif.Model.C05b
 import PhyVerif.Spec.C05
 namespace PhyVerif.Driver
 open Lean PhyVerif PhyVerif.C05 PhyVerif.C09
@@ -34,13 +35,24 @@ def runC05 (op : String) (j : Json) : R Json := do
     let g : Geometry := ⟨pos, shanks, ← getNat j "n_closest"⟩
     let thr ← fld j "thr" >>= asRat
     let explicit ← optField j "explicit" (asList asNat)
-    let T := if unwh then unwhiten wmi sc Tw none else Tw
-    let r := getTemplateDense g wmi sc Tw explicit thr unwh
+    -- `float_store` = significand bits of templates.npy (24 / 53): the floating-point path (Model/C05b.lean) — an
+    -- unwhitened request is built from the single precision rounding of the double precision product
+    let fstore ← optField j "float_store" asNat
+    let T := match fstore with
+      | some _ => if unwh then denseF32Input wmi sc Tw else Tw
+      | none => if unwh then unwhiten wmi sc Tw none else Tw
+    let r := match fstore with
+      | some _ => if unwh then getTemplateDenseF32 g wmi sc Tw explicit thr else getTemplateDense g wmi sc Tw explicit thr false
+      | none => getTemplateDense g wmi sc Tw explicit thr unwh
     let ok (x : Record) : Bool := match explicit with
       | none => denseOK g T thr x
       | some l => denseExplicitOK T l x
     pure (Json.mkObj [("model", jRecord r), ("model_spec", Json.bool (ok r)),
                       ("determined", Json.bool (nearDetermined g r.best)),
+                      ("ptp_exact", match fstore with
+                        | some b => Json.bool (ptpExactF (if unwh then 24 else b) T) | none => Json.null),
+                      ("one_term", match fstore with
+                        | some _ => Json.bool (oneTermCols wmi) | none => Json.null),
                       ("impl_spec", match impl with | some x => Json.bool (ok x) | none => Json.null),
                       -- which part fails, for the message only
                       ("impl_base", match impl, explicit with
